@@ -200,6 +200,11 @@ class PrematureClosure(HTTPException):
         self.args = msg,
         self.msg = msg
 
+class InvalidChunk(HTTPException):
+    def __init__(self, msg):
+        self.args = msg,
+        self.msg = msg
+
 
 class HTTPError(Exception):
     """
@@ -549,10 +554,11 @@ def parseChunk(raw):  # reading transfer encoded raw
         (yield None)
 
     size, sep, exts = line.partition(b';')
-    try:
-        size = int(size.strip().decode('ascii'), 16)
-    except ValueError:  # bad size
-        raise
+    size = size.strip(b' \t')
+    if not size or size.strip(b'0123456789abcdefABCDEF'):  # not 1*HEXDIG
+        raise InvalidChunk("Invalid chunk size line '{0}'"
+                           "".format(line.decode('iso-8859-1')))
+    size = int(size.decode('ascii'), 16)
 
     if exts:  # parse extensions parameters
         exts = exts.split(b';')
